@@ -4,7 +4,7 @@ from fractions import Fraction
 import lib, storelib as S
 from lib import Result, RMODES, OMODES, e_fmt, e_list, e_dy, model_call, run_sharded, Reader
 
-RULE = ('(S) scalar Python integers up to 2^1000 into formats of 1..52 bits with 0<=n_frac<=n_word+3 by constructor, call, set_val and indexed assignment, '
+RULE = ('(S) scalar Python integers up to 2^1000 into formats of 1..52 bits with 0<=n_frac<=n_word+3 (and, 15% of the cases, -8<=n_frac<0 with magnitudes around 2^53..2^64 and around the format bound) by constructor, call, set_val and indexed assignment, '
         'compared with Spec.quantize evaluated on the exact integer; magnitudes stratified around 2^31, 2^53, 2^62, 2^63, 2^64 (scaled and unscaled) and huge; '
         '(A) add/sub/mul with optimal sizing for operand words 2..70, results up to 256 bits, codes at extremes, near extremes and random, compared with exact integers. '
         'Non-trivial = the scaled input or an intermediate needs more than 53 bits; distinct by full input.')
@@ -29,6 +29,12 @@ def store_cases(rng, n):
         nf = rng.choice([0, 1, 4, nw // 2, nw, nw + 3, rng.randint(0, nw + 3)])
         s = rng.random() < 0.6
         v = big_int(rng)
+        if rng.random() < 0.15:
+            # ("any format": a negative fraction length, where integers of more than 53 bits are scaled with an exact rational factor)
+            nf = -rng.randint(1, 8)
+            if rng.random() < 0.6:
+                t = rng.choice([53, 54, 55, 60, 62, 63, 64, nw - nf - 1, nw - nf, nw - nf + 1])
+                v = rng.choice([1, -1]) * ((1 << t) + rng.choice([0, 1, -1, (1 << -nf) - 1, 1 << (-nf - 1), rng.randint(0, 1 << max(t - 1, 0))]))
         if rng.random() < 0.3:
             # scaled value near the int64 boundary
             t = rng.choice([62, 63, 64]) - nf
@@ -54,8 +60,8 @@ def run_store(cases, res):
         reqs.append([4] + e_fmt(c['s'], c['nw'], c['nf']) + [RMODES.index(c['r']), OMODES.index(c['o'])] + e_list([Fraction(c['v'])], e_dy))
     outs = model_call(reqs)
     for c, io, o in zip(cases, impl_out, outs):
-        rd = Reader(o); want = rd.lst(rd.z)[0]; so, su = rd.b(), rd.b()
-        scaled = abs(c['v']) << c['nf']
+        rd = Reader(o); want = rd.lst(rd.z)[0]; so, su = rd.b(), rd.b(); si = rd.b()
+        scaled = abs(c['v']) << c['nf'] if c['nf'] >= 0 else abs(c['v'])
         res.count('S:store-python-int', key=tuple(sorted(c.items())), nontrivial=scaled >= 2**53)
         res.sample(c)
         if 'exc' in io:
@@ -63,7 +69,9 @@ def run_store(cases, res):
         if io['code'] != want:
             res.fail(c, 'C19: stored Python integer differs from OVERFLOW(ROUND(v*2^n_frac))', expected=want, got=io['code']); continue
         if io['status'][:2] != (so, su):
-            res.fail(c, 'C19: overflow/underflow flag wrong when storing a Python integer', expected=(so, su), got=io['status'][:2])
+            res.fail(c, 'C19: overflow/underflow flag wrong when storing a Python integer', expected=(so, su), got=io['status'][:2]); continue
+        if c['nf'] < 0 and io['status'][2] != si:
+            res.fail(c, 'C19: inaccuracy flag wrong when storing a Python integer into a format with a negative fraction length (the integer was rounded before it was compared)', expected=si, got=io['status'][2])
 
 def arith_items(rng, n):
     import arithlib as A
